@@ -1,5 +1,6 @@
 import NutilsVerif.Core.Proto
 import NutilsVerif.Model.C19
+import NutilsVerif.Model.C19Src
 open NutilsVerif NutilsVerif.Proto NutilsVerif.C19
 
 /-- fields separated by '|' WITHOUT trimming (marker / expression data may start with blanks) -/
@@ -46,12 +47,42 @@ def showRes (r : P Res) (n : Nat) : String :=
   | .ok r => s!"ok|{showOps r.ops}|{showNats r.shape}|{str r.indices}|{str (dedupSorted r.summed)}"
   | .error e => s!"err|{e.kind.message}|{str ((e.markers n).map fun c => if c == ' ' then '.' else c)}"
 
+/-- prefix-coded source ASTs: `num d d ... ;` `var name idx|-` `paren e` `jump e` `mean e` `prod f tail` `pnil`
+`pcons f tail` `sum 0|1 first tail` `tnil` `tcons 0|1 t tail` -/
+partial def readSrc : List String → Option (Src × List String)
+  | "num" :: rest =>
+    let ds := rest.takeWhile (· ≠ ";")
+    match ds.mapM (·.toNat?), rest.dropWhile (· ≠ ";") with
+    | some d, _ :: rest' => some (.num d, rest')
+    | _, _ => none
+  | "var" :: name :: idx :: rest => some (.var name.toList (if idx == "-" then [] else idx.toList), rest)
+  | "paren" :: rest => (readSrc rest).map fun (e, r) => (.paren e, r)
+  | "jump" :: rest => (readSrc rest).map fun (e, r) => (.jump e, r)
+  | "mean" :: rest => (readSrc rest).map fun (e, r) => (.mean e, r)
+  | "prod" :: rest => (readSrc rest).bind fun (f, r) => (readSrc r).map fun (t, r') => (.prod f t, r')
+  | "pnil" :: rest => some (.pnil, rest)
+  | "pcons" :: rest => (readSrc rest).bind fun (f, r) => (readSrc r).map fun (t, r') => (.pcons f t, r')
+  | "sum" :: b :: rest => (readSrc rest).bind fun (f, r) => (readSrc r).map fun (t, r') => (.sum (b == "1") f t, r')
+  | "tnil" :: rest => some (.tnil, rest)
+  | "tcons" :: b :: rest => (readSrc rest).bind fun (f, r) => (readSrc r).map fun (t, r') => (.tcons (b == "1") f t, r')
+  | _ => none
+
+def showCodes (l : List Char) : String := showNats (l.map Char.toNat)
+
 def handle (line : String) : String :=
   match rawFields line with
   | ["parse", entry, vars, fns, codes] =>
     match parseEntry entry, parseAssoc vars, parseAssoc fns, parseCodes codes with
     | some e, some vs, some fs, some l => showRes (parseAt ⟨vs, fs⟩ e l) l.length
     | _, _, _, _ => "bad-request"
+  | ["src", vars, fns, toks] =>
+    match parseAssoc vars, parseAssoc fns, readSrc (words toks) with
+    | some vs, some fs, some (t, []) =>
+      let el := match elabExpr ⟨vs, fs⟩ t with
+        | some r => s!"some|{showOps r.ops}|{showNats r.shape}|{str r.indices}|{str (dedupSorted r.summed)}"
+        | none => "none"
+      s!"{if t.ok .expr then 1 else 0}|{showCodes t.print}|{el}"
+    | _, _, _ => "bad-request"
   | _ => "bad-request"
 
 def main : IO Unit := serve handle
